@@ -102,6 +102,8 @@ def body(run: Run, replay):
                 freq = np.array([0.0]) if ci % 2 else np.array([0.0, 0.0])
             else:
                 freq = np.array(sorted(set([float(fmin), float(fmin) * 3.5] + ([0.0] if ci % 2 else []))))
+            if ((pi + ci) // 8 + ci) % 2 and len(freq) > 1:
+                freq = freq[::-1].copy()       # the appended cycle is one period of the LOWEST non-zero frequency wherever it stands in the vector
             pack = ["1d", "Nx1", "NxH"][ci % 3]
             arg = sig[:, 0] if pack == "1d" else sig
             case = {"point": point, "M": M, "sr": sr, "freq": freq.tolist(), "packaging": pack, "signal": sig.tolist()}
